@@ -64,6 +64,8 @@ def run(chk):
     chk.coverage['columns'] = len(rows)
     run_.replay(chk, rows, ('discover',), thorough, chk.seed, CLAUSES, 'discovery')
     chk.coverage['category_sweep_cases'] = category_sweep(chk)
+    from checks import c08
+    chk.coverage['sqlite_tables'] = c08.discover_only(chk, rows, random.Random(chk.seed), None if thorough else 700, sig_kind='discovery')
     r = rows[len(rows) // 3]
     chk.sample({'column': r['col'], 'expected_discovery': r['disc'], 'demanded_keys': r['dkeys']})
     chk.coverage['rule'] = ('every column of <= N cells over the value grid of each type x dtype variants; expected = '
@@ -71,7 +73,7 @@ def run(chk):
                             'non-trivial = non-empty column')
     chk.coverage['exhaustive'] = True
     chk.assume('no_duplicates on bool/date fields and the sign of an all-null numeric field are not demanded (Appendix A)')
-    chk.assume('SQLite side of C07 is exercised by the C08 check (same SpecDiscover oracle)')
+    chk.assume('SQLite tables are built from the same abstract columns (one table name reused across types within the process)')
 
 
 def replay(path):
